@@ -180,7 +180,9 @@ pub fn replay(args: &[String]) {
             let mut it = classes.iter();
             let per_block: Vec<String> = segs.iter().filter(|s| s["k"] == json!("scrut"))
                 .map(|s| if s["hascmd"] == json!(true) { it.next().unwrap().clone() } else { "none".to_string() }).collect();
-            out.push(json!({"ev": "Load", "id": id * 100 + ai as u64, "lines": line_recs, "segs": v["segs"], "outcomes": per_block,
+            let outs_json: Vec<Value> = outputs.iter().map(|o| json!({"stdout": bytes_to_json(&o.stdout.to_bytes()),
+                "code": match o.exit_code { ExitStatus::Code(c) => c, _ => -1 }})).collect();
+            out.push(json!({"ev": "Load", "id": id * 100 + ai as u64, "lines": line_recs, "segs": v["segs"], "outcomes": per_block, "outputs": outs_json,
                             "chunks": chunks, "obs": obs, "updated": updated_text, "escaper": format!("{escaper:?}")}));
         }
         out
